@@ -236,6 +236,25 @@ def expand_macros(text, defines, depth=0):
             out.append(text[i:])
             break
         name = m.group(1)
+        if name == 'KF':
+            # parse args, return cond or true
+            j = m.end(); d = 1; cur = j; args = []
+            while d > 0:
+                c = text[j]
+                if c in '([{':
+                    d += 1
+                elif c in ')]}':
+                    d -= 1
+                    if d == 0:
+                        args.append(text[cur:j].strip()); break
+                elif c == ',' and d == 1:
+                    args.append(text[cur:j].strip()); cur = j + 1
+                j += 1
+            KF_USED.add(args[0])
+            out.append(text[i:m.start()])
+            out.append('(true)' if KNOWN_OFF[0] else '(' + args[1] + ')')
+            i = j + 1
+            continue
         if name not in defines:
             raise SpecError('unknown sidecar macro $%s' % name)
         out.append(text[i:m.start()])
@@ -271,6 +290,8 @@ def expand_macros(text, defines, depth=0):
 # --------------------------------------------------------------------------
 
 DEFINES = {}
+KF_USED = set()
+KNOWN_OFF = [False]
 
 
 class Pieces:
@@ -648,6 +669,18 @@ class Extractor:
                 p.insert(sig[parts['name_i'] + 1].end, ', '.join(names) + ', ')
             else:
                 p.insert(ni.end, '<' + ', '.join(names) + '>')
+        # R18: `<Resolved as ResolveState>::RangeType` -> i64 (checked against the impl in resolve.rs on every run)
+        if 'R18' in fs.rewrites:
+            rs = self.source('asn1rs-model/src/resolve.rs').text
+            if not re.search(r'impl\s+ResolveState\s+for\s+Resolved\s*\{[^}]*type\s+RangeType\s*=\s*i64\s*;', rs):
+                raise AnchorLost('%s: R18: `type RangeType = i64` not found in impl ResolveState for Resolved' % what)
+            sigtxt = src.text[sig[parts['popen']].start:sig[parts['pclose']].end]
+            fired = False
+            for m in re.finditer(r'<\s*Resolved\s+as\s+ResolveState\s*>\s*::\s*RangeType', sigtxt):
+                p.rewrite(sig[parts['popen']].start + m.start(), sig[parts['popen']].start + m.end(), 'i64', 'R18')
+                fired = True
+            if not fired:
+                raise AnchorLost('%s: rewrite rule R18 listed but did not fire' % what)
         # R0: name the return value
         has_spec = bool(fs.requires or fs.ensures or fs.decreases)
         if parts['ret'] and not fs.noret:
@@ -1017,6 +1050,8 @@ def generate(spec_path, repo, features, known_off=False, canary=None):
     unit = parse_spec(spec_path)
     DEFINES.clear()
     DEFINES.update(unit.defines)
+    KF_USED.clear()
+    KNOWN_OFF[0] = bool(known_off)
     ex = Extractor(repo, features, known_off, canary)
     outside = []
     for file, names in unit.macros:
@@ -1060,7 +1095,7 @@ def generate(spec_path, repo, features, known_off=False, canary=None):
     meta = {
         'unit': unit.name, 'spec': os.path.relpath(spec_path, VERIF), 'flags': unit.flags, 'features': sorted(features),
         'spans': ex.spans, 'rewrites': ex.log, 'functions': ex.fn_index, 'preludes': preludes,
-        'known_clauses': sorted(ex.known_used), 'known_off': known_off, 'canary': canary,
+        'known_clauses': sorted(ex.known_used | KF_USED), 'known_off': known_off, 'canary': canary,
     }
     return unit, text, meta
 
